@@ -19,10 +19,15 @@ pub enum AStep {
     /// same value is set or published again)
     Same(bool, &'static str),
     Adv(u64),
+    /// slow-client variant: the client takes one message off its channel
+    Read,
 }
 
 pub struct AggScenario {
     pub steps: Vec<AStep>,
+    /// the channel towards the client holds one message and is only read at `Read` steps (and at the
+    /// end): flushes that are due while it is full have to wait, not to be skipped
+    pub slow_client: bool,
 }
 
 async fn settle_short() {
@@ -40,8 +45,9 @@ impl Scenario for AggScenario {
     }
     fn run(&self, history: &[u16]) -> Option<StepOut> {
         block_on(async {
-            let (tx, mut rx) = mpsc::channel::<SM>(1000);
+            let (tx, mut rx) = mpsc::channel::<SM>(if self.slow_client { 1 } else { 1000 });
             let agg = PStateAggregator::new(tx, "#".to_owned(), Duration::from_millis(INTERVAL_MS), 7, 1000, cid(0));
+            let slow = self.slow_client;
             let start = Instant::now();
             // per key: inputs (kind, value, hand-in time), outputs (kind, value, arrival time)
             let mut inputs: BTreeMap<String, Vec<(bool, i64, u128)>> = BTreeMap::new();
@@ -49,9 +55,12 @@ impl Scenario for AggScenario {
             let mut counter = 0i64;
             let mut batches = 0usize;
             let mut violation: Option<String> = None;
-            let mut collect = |rx: &mut mpsc::Receiver<SM>, outputs: &mut BTreeMap<String, Vec<(bool, i64, u128)>>, batches: &mut usize, violation: &mut Option<String>| {
+            let mut collect = |rx: &mut mpsc::Receiver<SM>, outputs: &mut BTreeMap<String, Vec<(bool, i64, u128)>>, batches: &mut usize, violation: &mut Option<String>, limit: usize| {
                 let now = start.elapsed().as_millis();
-                while let Ok(m) = rx.try_recv() {
+                let mut taken = 0;
+                while taken < limit {
+                    let Ok(m) = rx.try_recv() else { break };
+                    taken += 1;
                     match m {
                         SM::PState(p) => {
                             if p.transaction_id != 7 || p.request_pattern != "#" {
@@ -75,10 +84,21 @@ impl Scenario for AggScenario {
                 }
             };
             let mut steps: Vec<AStep> = history.iter().map(|o| self.steps[*o as usize].clone()).collect();
-            // final flush
+            // final flush (a slow client finally reads everything)
+            let own_steps = steps.len();
             steps.push(AStep::Adv(2 * INTERVAL_MS));
-            for st in &steps {
+            if slow {
+                for _ in 0..8 {
+                    steps.push(AStep::Adv(INTERVAL_MS));
+                }
+            }
+            for (si, st) in steps.iter().enumerate() {
+                let drain = if !slow || si >= own_steps { usize::MAX } else { 0 };
                 match st {
+                    AStep::Read => {
+                        collect(&mut rx, &mut outputs, &mut batches, &mut violation, 1);
+                        settle_short().await;
+                    }
                     AStep::Ev(set, key) | AStep::Same(set, key) => {
                         let value = if matches!(st, AStep::Same(..)) {
                             inputs.get(*key).and_then(|v| v.last()).map(|x| x.1).unwrap_or(0)
@@ -101,12 +121,12 @@ impl Scenario for AggScenario {
                             let d = left.min(10);
                             tokio::time::advance(Duration::from_millis(d)).await;
                             settle_short().await;
-                            collect(&mut rx, &mut outputs, &mut batches, &mut violation);
+                            collect(&mut rx, &mut outputs, &mut batches, &mut violation, drain);
                             left -= d;
                         }
                     }
                 }
-                collect(&mut rx, &mut outputs, &mut batches, &mut violation);
+                collect(&mut rx, &mut outputs, &mut batches, &mut violation, drain);
             }
             if violation.is_none() {
                 for (k, ins) in &inputs {
@@ -119,7 +139,8 @@ impl Scenario for AggScenario {
                         break;
                     }
                     for (i, o) in ins.iter().zip(outs.iter()) {
-                        if o.2 > i.2 + INTERVAL_MS as u128 {
+                        // (the delay bound holds "once the client connection can take it")
+                        if !slow && o.2 > i.2 + INTERVAL_MS as u128 {
                             violation = Some(format!(
                                 "key {k}: event #{} handed in at {} ms was delivered at {} ms (interval {INTERVAL_MS} ms)",
                                 i.1, i.2, o.2
@@ -158,6 +179,21 @@ pub fn agg_scenario() -> AggScenario {
             AStep::Adv(INTERVAL_MS / 2),
             AStep::Adv(INTERVAL_MS),
         ],
+        slow_client: false,
+    }
+}
+
+pub fn slow_client_scenario() -> AggScenario {
+    AggScenario {
+        steps: vec![
+            AStep::Ev(true, "a"),
+            AStep::Ev(false, "a"),
+            AStep::Ev(true, "b"),
+            AStep::Same(true, "a"),
+            AStep::Read,
+            AStep::Adv(INTERVAL_MS),
+        ],
+        slow_client: true,
     }
 }
 
